@@ -765,6 +765,22 @@ class Interp:
             m = self.methods.get((base, sm.name))
             if m:
                 return m(self, obj, list(args), kwargs)
+        if isinstance(obj, (set, frozenset)) and sm.name in ("difference", "intersection", "union", "issubset", "issuperset", "isdisjoint", "symmetric_difference") and not kwargs:
+            # set algebra looks at the ELEMENTS of its arguments only (for a mapping: its keys); concrete elements decide it,
+            # whatever the mapping's values are
+            others = []
+            for a in args:
+                a = self.force(a) if isinstance(a, SIte) else a
+                if isinstance(a, dict):
+                    elems = list(a.keys())
+                elif isinstance(a, (list, tuple, set, frozenset)):
+                    elems = list(a)
+                else:
+                    elems = None
+                if elems is None or not all(deep_concrete(x) and not isinstance(x, (Sym, Abstract, SObj)) for x in elems):
+                    raise Unsupported(f"method {t.__name__}.{sm.name} on symbolic value")
+                others.append(set(elems))
+            return getattr(obj, sm.name)(*others)
         raise Unsupported(f"method {t.__name__}.{sm.name} on symbolic value")
 
     # --------------------------------------------------------------- attribute
@@ -871,6 +887,9 @@ class Interp:
             return
         if isinstance(o, Abstract):
             return o.p_setattr(self, name, value)
+        if o is None or isinstance(o, (int, str, bytes, float, tuple, bool)):
+            # Python: objects of these types take no attributes
+            raise Raised(ExcVal(AttributeError, (f"'{type(o).__name__}' object has no attribute '{name}'",)))
         raise Unsupported(f"setattr on {type(o).__name__}")
 
     # -------------------------------------------------------------- statements
